@@ -305,4 +305,44 @@ theorem allItems_append (sl : List String) (a b : List Op) (vs : List Vtx) :
     obtain ⟨S, hS⟩ := ih (addVerts sl o vs).1
     exact ⟨S, by simp only [List.cons_append, allItems, hS, List.append_assoc]⟩
 
+/-! ### leftovers matter through their names only (round 6g) -/
+
+theorem newNames_congr (seen : List String) (X X' : List (String × List Nat)) (h : X.map (·.1) = X'.map (·.1)) :
+    newNames seen X = newNames seen X' := by
+  induction X generalizing X' seen with
+  | nil =>
+    cases X' with
+    | nil => rfl
+    | cons _ _ => simp at h
+  | cons it rest ih =>
+    cases X' with
+    | nil => simp at h
+    | cons it' rest' =>
+      simp only [List.map_cons, List.cons.injEq] at h
+      obtain ⟨h1, h2⟩ := h
+      simp only [newNames, h1]
+      split
+      · exact ih _ _ h2
+      · rw [ih _ _ h2]
+
+/-- the names of the items do not depend on the vertex list the assembly starts from -/
+theorem allItems_names (sl : List String) (ops : List Op) (vs vs' : List Vtx) :
+    (allItems sl ops vs).map (·.1) = (allItems sl ops vs').map (·.1) := by
+  induction ops generalizing vs vs' with
+  | nil => rfl
+  | cons o rest ih =>
+    simp only [allItems, List.map_append]
+    rw [ih (addVerts sl o vs).1 (addVerts sl o vs').1]
+    congr 1
+    simp [patchItems, List.map_map, Function.comp_def]
+
+/-- `recover_patches` with the leftovers `X` of the interrupted assembly and the items `X'` of the new one agreeing on
+    their names only (the sides may be different vertex indices) -/
+theorem recover_patches_names (P : List Patch) (X X' S : List (String × List Nat)) (h : X.map (·.1) = X'.map (·.1)) :
+    addItems (clearPatches (addItems P X)) (X' ++ S) = addItems (clearPatches P) (X' ++ S) := by
+  rw [clearPatches_addItems, addItems_append, addItems_append, newNames_congr _ X X' h]
+  have h2 := addItems_with_fresh (clearPatches P) X'
+  rw [names_clearPatches] at h2
+  rw [h2]
+
 end CBV.C12
